@@ -86,8 +86,10 @@ def _build_from_objects(sc, therm, names, elements, binary, kw, targs, prior, te
     from kawin.precipitation.PrecipitationParameters import MatrixParameters, PrecipitateParameters, Constraints
     mp = MatrixParameters(list(elements))
     va = sc["VmA"]
+    # (multicomponent: the composition is handed over as an ndarray the caller keeps - see run(): it may be reused afterwards)
+    x0_ref = None if binary else np.array(sc["x0"], dtype=float)
     steps = {"vol": lambda: mp.volume.setVolume(va[0], va[1], va[2]),
-             "comp": lambda: setattr(mp, "initComposition", sc["x0"] if binary else list(sc["x0"])),
+             "comp": lambda: setattr(mp, "initComposition", sc["x0"] if binary else x0_ref),
              "sites": (lambda: mp.nucleationSites.setNucleationDensity(**sc["nucdens"])) if "nucdens" in sc else (lambda: None)}
     for key in {0: ("vol", "comp", "sites"), 1: ("comp", "vol", "sites"), 2: ("sites", "comp", "vol")}[sc.get("obj_order", 0) % 3]:
         steps[key]()
@@ -131,6 +133,7 @@ def _build_from_objects(sc, therm, names, elements, binary, kw, targs, prior, te
     m.setPBMParameters(cMin=pb["cmin"], cMax=pb["cmax"], bins=pb["bins"], minBins=pb["minBins"], maxBins=pb["maxBins"], adaptive=pb.get("adaptive", True))
     for nm in sc.get("record_psd", []):
         m.setPSDrecording(True, phase=nm)
+    m._vk_x0_ref = x0_ref
     return m
 
 
@@ -284,7 +287,11 @@ def run(sc, callbacks=(), model=None, therm=None, temperature_entry="setter", ex
     truncated = False
     completed_calls = 0
     rows = [len(model.pData.time)]
-    for dur in sc["durations"]:
+    for icall, dur in enumerate(sc["durations"]):
+        if icall > 0 and sc.get("reuse_x0_array") and getattr(model, "_vk_x0_ref", None) is not None:
+            # the caller reuses its own composition array for something else between two solve calls (next alloy of a sweep):
+            # the running model must keep the alloy content it was started with
+            model._vk_x0_ref *= 1.25
         try:
             model.solve(dur, solverType=tap, minDtFrac=sc.get("minDtFrac", 1e-8), maxDtFrac=sc.get("maxDtFrac", 1))
             completed_calls += 1
